@@ -150,18 +150,35 @@ def p_list_(I, args, kwargs, node):
     return v
 
 
+def pat_chain_check(I, n, env):
+    """all(a <= b for a, b in zip(xs, xs[1:])): is the sorted list a chain, i.e. are the elements totally ordered (PS2/X9)"""
+    xs = env.lookup("set_values")
+    r = SV(z3.Function("is_chain", sort_of(Abs("ValSet")), z3.BoolSort())(xs.t), BOOL)
+    I.ghost["chain_checked_on"] = xs
+    I.ghost["chain_ok"] = r
+    return r
+
+
+def s_is_chain(I, v):
+    return SV(z3.Function("is_chain", sort_of(Abs("ValSet")), z3.BoolSort())(v.t), BOOL)
+
+
+SPEC_NS["is_chain"] = s_is_chain
+
 contract(
     CR + ".sort_set_values",
     params={"set_values": "ValSet"},
     callees={"sorted": p_sorted, "map": p_map, "list": p_list_},
+    extern_patterns={"all((a <= b for (a, b) in zip(set_values, set_values[1:])))": pat_chain_check},
     returns=None,
     result_name="ret",
-    ghost={"vars": {"sort_raised": "=False", "sorted_values": "=False", "sorted_strings": "=False"}},
+    ghost={"vars": {"sort_raised": "=False", "sorted_values": "=False", "sorted_strings": "=False", "chain_ok": "=False", "chain_checked_on": "=None"}},
     ensures={
-        # C16: the text for a set must not depend on the iteration order: either the elements are ordered first, or -- when they
-        # cannot be compared -- their reprs are
-        "orderable-elements-are-sorted-first [C16]": "implies(not sort_raised, sorted_values and not sorted_strings and ret.sorted == False and ret.of == sorted_vals(old(set_values)))",
-        "unorderable-elements-are-sorted-by-repr [C16]": "implies(sort_raised, sorted_strings and ret.sorted == True and ret.of == old(set_values))",
+        # C16: the text for a set must not depend on the iteration order: the order of the elements is used only when it is
+        # total on them (sorted() did not raise and its result is a chain); otherwise the reprs are sorted
+        "element-order-only-when-total [C16]": "when(not sort_raised, chain_checked_on == sorted_vals(old(set_values)))"
+            " and implies(not sort_raised and is_chain(sorted_vals(old(set_values))), not sorted_strings and ret.sorted == False and ret.of == sorted_vals(old(set_values)))",
+        "otherwise-sorted-by-repr [C16]": "implies(sort_raised or not is_chain(sorted_vals(old(set_values))), sorted_strings and ret.sorted == True)",
     },
     frame=[],
     safety_props=["C18"],
